@@ -56,7 +56,13 @@ func (s *StorageClient) Set(key string, item *mc.Item, noreply bool) (bool, erro
 	payload.Ver = int32(item.Exptime)
 	payload.TS = uint32(item.ReceiveTime.Unix())
 
-	tofree = nil
+	if payload.Ver < 0 {
+		// a negative revision makes this a delete: a tombstone carries no value and
+		// the store does not account for one, so the body is released here
+		payload.CArray = cmem.CArray{}
+	} else {
+		tofree = nil
+	}
 	err := s.hstore.Set(ki, payload)
 	if err != nil {
 		logger.Errorf("err to get %s: %s", key, err.Error())
